@@ -285,6 +285,40 @@ double Interpolation::Integrate(double x_1, double x_2)
 	return sign * integral;
 }
 
+// Inside the tabulated domain Steffen's pieces are monotone, but in the extrapolation zone tolerated by Locate() the first and
+// last piece may have a stationary point. Returns the curve values at such points inside [x_1,x_2].
+std::vector<double> Interpolation::Stationary_Values_Outside_Domain(double x_1, double x_2)
+{
+	std::vector<double> values;
+	for(unsigned int j : {0u, N - 2})
+	{
+		// The part of [x_1,x_2] outside the domain on this side, relative to x_values[j].
+		double t_min = (j == 0) ? x_1 - x_values[0] : std::max(x_1, x_values[N - 1]) - x_values[j];
+		double t_max = (j == 0) ? std::min(x_2, x_values[0]) - x_values[0] : x_2 - x_values[j];
+		if(!(t_min < t_max))
+			continue;
+		// Roots of the derivative A t^2 + B t + C of the piece.
+		double A = 3.0 * a[j], B = 2.0 * b[j], C = c[j];
+		std::vector<double> roots;
+		if(A == 0.0)
+		{
+			if(B != 0.0)
+				roots.push_back(-C / B);
+		}
+		else if(B * B - 4.0 * A * C >= 0.0)
+		{
+			double q = -0.5 * (B + ((B < 0.0) ? -1.0 : 1.0) * sqrt(B * B - 4.0 * A * C));
+			roots.push_back(q / A);
+			if(q != 0.0)
+				roots.push_back(C / q);
+		}
+		for(double t : roots)
+			if(t > t_min && t < t_max)
+				values.push_back(Interpolate(x_values[j] + t));
+	}
+	return values;
+}
+
 double Interpolation::Local_Minimum(double x_1, double x_2)
 {
 	libphysica::Check_For_Error(x_2 < x_1, "Interpolation::Local_Minimum()", "Faulty order of arguments.");
@@ -296,6 +330,8 @@ double Interpolation::Local_Minimum(double x_1, double x_2)
 	auto last  = function_values.begin() + (std::upper_bound(x_values.begin(), x_values.end(), x_2) - x_values.begin());
 	if(first < last)
 		minimum = std::min(minimum, (prefactor < 0.0) ? prefactor * (*std::max_element(first, last)) : prefactor * (*std::min_element(first, last)));
+	for(double value : Stationary_Values_Outside_Domain(x_1, x_2))
+		minimum = std::min(minimum, value);
 	return minimum;
 }
 
@@ -310,6 +346,8 @@ double Interpolation::Local_Maximum(double x_1, double x_2)
 	auto last  = function_values.begin() + (std::upper_bound(x_values.begin(), x_values.end(), x_2) - x_values.begin());
 	if(first < last)
 		maximum = std::max(maximum, (prefactor < 0.0) ? prefactor * (*std::min_element(first, last)) : prefactor * (*std::max_element(first, last)));
+	for(double value : Stationary_Values_Outside_Domain(x_1, x_2))
+		maximum = std::max(maximum, value);
 	return maximum;
 }
 
